@@ -52,9 +52,16 @@ DoApiTxn ==
     /\ dbs' = [dbs EXCEPT ![Ev.db] = DbJ(Ev.post)]
     /\ UNCHANGED <<mons, cmons>>
 
+\* a set-up transaction of the harness (delete every row; insert the rows of a case) that the database refuses
+DoSetup ==
+    /\ Ev.ev = "setup"
+    /\ Chk(Ev.ok, "C03", "the database refuses a transaction that deletes every row, or inserts legal rows into empty tables",
+           [what |-> Ev.what, error |-> Ev.err])
+    /\ UNCHANGED <<dbs, mons, cmons>>
+
 NextApi ==
     \/ /\ l <= Len(Trace)
-       /\ DoApiTxn
+       /\ (DoApiTxn \/ DoSetup)
        /\ l' = l + 1
        /\ UNCHANGED done
     \/ Next
